@@ -378,10 +378,20 @@ def judge(r, gen):
             break
     multi = fmt_file in gen["companion_files"]
     problems = []
+    # results that change with the fill byte of the (uninitialised) stack are not a back-end matter
+    uninit_l = "mem2" in r["L"] and "mem" in r["L"] and r["L"]["mem2"]["res"] != r["L"]["mem"]["res"]
+    uninit_t = "mem2" in r["T"] and "mem" in r["T"] and r["T"]["mem2"]["res"] != r["T"]["mem"]["res"]
+    if uninit_l:
+        problems.append(("uninit-load", "memory load twice over differently filled stacks: %s vs %s" % (
+            " ".join(r["L"]["mem"]["res"])[:90], " ".join(r["L"]["mem2"]["res"])[:90])))
+    if uninit_t:
+        a, b2 = r["T"]["mem"]["res"], r["T"]["mem2"]["res"]
+        problems.append(("uninit-title", "memory test twice over differently filled stacks: (%s,%r) vs (%s,%r)" % (
+            a[0], hexstr(a[1]), b2[0], hexstr(b2[1]))))
     lgroups = [["file", "mem", "cb"]] if (container or multi) else [list(ENTRIES)]
     tgroups = [["file", "mem", "cb"]] if external else [["path", "file"], ["mem", "cb"]] if container else [list(ENTRIES)]
     names = ("rc", "tables", "md5", "sequences", "pcm", "type")
-    for g in lgroups:
+    for g in ([] if uninit_l else lgroups):
         vals = {e: r["L"][e]["res"] for e in g if e in r["L"]}
         if len(set(vals.values())) > 1:
             ref = vals[g[0]]
@@ -393,7 +403,7 @@ def judge(r, gen):
                         what = [names[i] for i in range(len(ref)) if vals[e][i] != ref[i]][0]
                     problems.append(("load-" + what, "load %s=%s vs %s=%s" % (g[0], " ".join(ref)[:90], e, " ".join(vals[e])[:90])))
                     break
-    for g in tgroups:
+    for g in ([] if uninit_t else tgroups):
         vals = {e: r["T"][e]["res"] for e in g if e in r["T"]}
         if len(set(vals.values())) > 1:
             ref = vals[g[0]]
